@@ -86,6 +86,7 @@ def run(ctx) -> None:
   ctx.rule('R5', 'feasibility dispatch total with matching accessors; exact handler; exact integrality test', 4)
   ctx.rule('R6', 'Study.add_trial validates against the freshly fetched search space before the service call', 1)
   ctx.rule('R7', 'sequential walk validates every chosen value', 2)
+  ctx.import_rules('C09', {'R8'}, 'R12', 'a conditional space keeps one definition per (parent value, child) through study creation: children are never merged')
   ctx.rule('R11', '"has children" is decided on child parameter configs, never on the `_children` table being non-empty '
            '(subspace() look-ups leave empty entries there)', 1)
   ctx.rule('R10', 'subspaces are looked up under the internal representation of the parent value (the representation they are stored under)', 2)
